@@ -113,6 +113,18 @@ def explore(ctx):
         ctx.count(f'revisit:k={len(sc["files"])}:hits={"0" if hits == 0 else "1+"}')
         if hits:
             ctx.nontriv(repr((sc['files'], sc['passes'], sc['rules'])))
+    # oracle-only sweep: sequential pairs (N = 1, empty schedule) differ in nothing but the cache switch
+    for it in range(250 if ctx.quick() else 3000):
+        sc = scengen.gen_revisit(rnd, k=rnd.choice([1, 1, 2]), alphabet=rnd.choice(['ab', 'abc']))
+        sc['cfg']['N'] = 1
+        sc['sched'] = []
+        on = dict(sc, cfg=dict(sc['cfg'], no_cache=False))
+        off = dict(sc, cfg=dict(sc['cfg'], no_cache=True))
+        o1 = driver.run_scenario(on, ctx.tmp)
+        o2 = driver.run_scenario(off, ctx.tmp)
+        ctx.evaluations += 2
+        ctx.count('sequential-pairs')
+        oracle(ctx, on, off, o1, o2, mode='each')
     ctx.sample({'scenario': {k: red[0][2][k] for k in ('files', 'group', 'rules', 'cfg')}, 'impl_output': red[0][1][:40]})
     correspond(ctx, 'c10', each, red)
 
